@@ -74,7 +74,7 @@ def sizes(lo, hi):
 
 @st.composite
 def table(draw, hdr, cols, max_rows=6, min_rows=0, ragged=False, id_col=None, extra=scalar,
-          ragged_odds=4):
+          ragged_odds=4, ragged_min=0):
     """hdr: list of field names; cols: one cell strategy per field (id_col index gets the row
     number).  ragged: about one row in `ragged_odds` gets a length in 0..n+1."""
     n = len(hdr)
@@ -83,7 +83,7 @@ def table(draw, hdr, cols, max_rows=6, min_rows=0, ragged=False, id_col=None, ex
     for i in range(nrows):
         row = [i if j == id_col else draw(cols[j]) for j in range(n)]
         if ragged and draw(st.integers(0, ragged_odds - 1)) == 0:
-            ln = draw(st.integers(0, n + 1))
+            ln = draw(st.integers(min(ragged_min, n), n + 1))
             row = (row + [draw(extra)])[:ln]
         rows.append(row)
     return [list(hdr)] + rows
